@@ -29,14 +29,14 @@ def kruns(rid, entry, mode='SEQ', extra=None, cls='shape-complete', note=''):
     for k in (1, 2, 3, 5, 8):
         d = {'XV_K': k}; d.update(extra or {})
         out.append(dict(id='%s_k%d' % (rid, k), entry=entry, mode=mode, defs=d, unwind=k + 2, cls=cls, solver=['--sat-solver', 'cadical'],
-                        tiers=['thorough'] if k == 8 else ['quick', 'thorough'], note=note or 'K=%d slots; loops over slots unwound K+1 times with unwinding assertions' % k))
+                        tiers=['thorough'] if k == 8 else ['quick', 'thorough'], timeout=3000 if k == 8 else 600, note=note or 'K=%d slots; loops over slots unwound K+1 times with unwinding assertions' % k))
     return out
 RUNS = [dict(id='slot', entry='h_slot', defs={'XV_K': 3}, unwind=5, cls='unbounded', note='slot word operations are loop-free; K only sizes the monitor arrays')]
 RUNS += kruns('init', 'h_init') + kruns('alloc', 'h_alloc') + kruns('gops', 'h_gops') + [r for r in kruns('acq', 'h_acq', note='SEQ view of acquire/acquire_if_equal (retry loop cut); the extra SEQ obligation does not depend on K') if r['defs']['XV_K'] in (2, 3)] + kruns('acq_int', 'h_acq', mode='INT', note='INT: source cell rewritten arbitrarily before every atomic access; retry loop cut by invariant ACQ')
 for k in (1, 2):
     for (nb, bs, bnew, tiers) in ((2, 2, 3, ['quick', 'thorough']), (3, 3, 6, ['thorough'])):
         RUNS.append(dict(id='dyn_k%d_b%d' % (k, nb), entry='h_dyn', defs={'XV_K': k, 'XV_DYN': 1, 'XV_NB': nb, 'XV_BS': bs, 'XV_BNEW': bnew}, unwind=k + (nb + 1) * bnew + 3,
-                         cls='shape-complete', solver=['--sat-solver', 'cadical'], tiers=tiers,
+                         cls='shape-complete', solver=['--sat-solver', 'cadical'], tiers=tiers, timeout=3000 if nb == 3 else 600,
                          note='dynamic strategy, K=%d, 0..%d left-over blocks of 1..%d slots each with arbitrary contents; the new block has at most %d slots' % (k, nb, bs, bnew)))
 OBL = {
   'hp.dynamic.initialize.relinks_all': dict(deciding=True, text='dynamic strategy: initialize on an arbitrary left-over record chains every slot of the in-object array and of EVERY dynamic block exactly once (array, newest block, ..., oldest block), null-terminated; the active-hp counter grows by the total'),
@@ -71,7 +71,7 @@ CANARIES = ['acq.throw', 'aie.throw', 'acq.kept', 'acq.protect_new', 'acq.marked
   'gops.move_ctor_held', 'gops.move_ctor_empty', 'gops.copy_assign_reuse', 'gops.copy_assign_alloc', 'gops.copy_assign_from_empty', 'gops.copy_assign_both_empty',
   'gops.self_copy', 'gops.self_move', 'gops.move_assign_releases', 'gops.move_assign_plain', 'gops.reset_held', 'gops.dtor_held', 'gops.reset_empty', 'gops.reset_twice',
   'gops.swap_both', 'gops.swap_one', 'gops.reclaim_scan', 'gops.reclaim',
-  'slot.object', 'slot.link', 'slot.link_null', 'init.block', 'init.k_allocs', 'alloc.from_chain', 'alloc.first_of_thread', 'alloc.exhausted',
+  'slot.object', 'slot.link', 'slot.link_null', 'init.block', 'init.k_allocs', 'alloc.from_chain', 'alloc.chain_not_in_index_order', 'alloc.first_of_thread', 'alloc.exhausted',
             'release.held', 'release.null_uninit', 'release.null']
 
 UNIT = dict(
